@@ -55,13 +55,14 @@ from translate_addr import INTS, ARITH_INTS, BITS, LEAN_INT, PREFIX, ARITH_PREFI
 from translate_sstcp import ExtFn, AVar, FnSig, lean_type, lean_atom, type_str, show_type, show_pat, show_expr, lean_name  # noqa: E402
 
 MAIN_TARGETS = {
-    "Session": ("new",),
-    "AEADCipherCodec": ("new_decoder", "decode_client_packet_aead_2022", "decode_server_packet_aead_2022", "decode"),
-    "SessionCodec": ("decode",),
+    "Session": ("new", "increase_packet_id"),
+    "AEADCipherCodec": ("new_decoder", "decode_client_packet_aead_2022", "decode_server_packet_aead_2022", "decode",
+                        "new_encoder", "encode_client_packet_aead_2022", "encode_server_packet_aead_2022", "encode"),
+    "SessionCodec": ("decode", "encode"),
 }
 ORD_TARGET = ("CipherKey", "cmp")
 MAIN_STRUCTS = ("AEADCipherCodec", "Context", "Session", "SessionCodec", "CipherKey")
-OPAQUE = ("ServerUserManager", "CipherMethod", "ChunkDecoder")
+OPAQUE = ("ServerUserManager", "CipherMethod", "ChunkDecoder", "ChunkEncoder")
 st.OPAQUE = OPAQUE
 
 USE_SUFFIX = dict(st.USE_SUFFIX)
@@ -110,6 +111,34 @@ EXT_FNS = {
         "fn decode_packet ( & mut self , src : & mut BytesMut ) -> Result < BytesMut , aes_gcm :: aead :: Error >",
         "`ChunkDecoder::decode_packet(&mut self, src)`: takes all of `src`, AEAD open under the first nonce"),
     ("aead_2022", "now"): st.EXT_FNS[("aead_2022", "now")],
+    ("aead_2022", "next_padding_length"): st.EXT_FNS[("aead_2022", "next_padding_length")],
+    ("dice", "roll_bytes"): st.EXT_FNS[("dice", "roll_bytes")],
+    ("dice", "fill_bytes"): ExtFn(
+        "dice_fill_bytes", None, [("SliceU8", True)], "unit", "util", ("mod", "dice"),
+        "fn fill_bytes ( bytes : & mut [ u8 ] )",
+        "`dice::fill_bytes(bytes)`: overwrites `bytes` with random bytes (same length)", "dice"),
+    ("udp", "with_eih"): ExtFn(
+        "udp_with_eih", None, [("CipherKind", False), ("bytes", False), ("ListArr", False), ("bytes", False), ("BytesMut", True)],
+        ("result", "unit"), "udp2022", None,
+        "fn with_eih < const N : usize > ( kind : CipherKind , key : & [ u8 ] , identity_keys : & [ [ u8 ; N ] ] , "
+        "session_id_packet_id : & [ u8 ] , dst : & mut BytesMut , ) -> anyhow :: Result < ( ) >",
+        "`aead_2022::udp::with_eih(kind, key, identity_keys, session_id_packet_id, dst)`: appends one identity header per identity key", "udp"),
+    ("udp", "aes_encrypt_in_place"): ExtFn(
+        "udp_aes_encrypt_in_place", None, [("CipherKind", False), ("bytes", False), ("SliceU8", True)], ("result", "unit"), "udp2022", None,
+        "fn aes_encrypt_in_place ( kind : CipherKind , key : & [ u8 ] , header : & mut [ u8 ] ) -> anyhow :: Result < ( ) >",
+        "`aead_2022::udp::aes_encrypt_in_place(kind, key, header)`: one AES block, in place", "udp"),
+    ("CipherMethod", "encrypt_in_place_detached"): ExtFn(
+        "CipherMethod_encrypt_in_place_detached", ("CipherMethod", "ref"), [("bytes", False), ("bytes", False), ("SliceU8", True)],
+        ("result", "unit"), "kind", "CipherMethod",
+        "fn encrypt_in_place_detached ( & self , nonce : & [ u8 ] , associated_data : & [ u8 ] , plaintext : & mut [ u8 ] ) -> Result < ( ) , aead :: Error >",
+        "`CipherMethod::encrypt_in_place_detached(&self, nonce, aad, buf)`: AEAD seal of all but the last `tag_size` bytes of `buf`, in "
+        "place, the tag written into the last `tag_size` bytes (same length; panics when `buf` is shorter than the tag)"),
+    ("aead", "new_encoder"): st.EXT_FNS[("aead", "new_encoder")],
+    ("ChunkEncoder", "encode_packet"): ExtFn(
+        "ChunkEncoder_encode_packet", ("ChunkEncoder", "mut"), [("BytesMut", False), ("BytesMut", True)], ("result", "unit"), "chunk",
+        "ChunkEncoder",
+        "fn encode_packet ( & mut self , mut src : BytesMut , dst : & mut BytesMut ) -> Result < ( ) , aes_gcm :: aead :: Error >",
+        "`ChunkEncoder::encode_packet(&mut self, src, dst)`: AEAD seal of `src` under the first nonce, appended to `dst`"),
 }
 EXT_ORDER = [k for k in EXT_FNS]
 st.EXT_FNS = EXT_FNS
@@ -118,6 +147,13 @@ CALL_PATHS = {
     "udp_aes_decrypt_in_place": [["udp", "aes_decrypt_in_place"]],
     "get_cipher": [["get_cipher"]],
     "aead_new_decoder": [["super", "aead", "new_decoder"]],
+    "aead_new_encoder": [["super", "aead", "new_encoder"]],
+    "aead_2022_now": [["aead_2022", "now"]],
+    "aead_2022_next_padding_length": [["aead_2022", "next_padding_length"]],
+    "dice_roll_bytes": [["dice", "roll_bytes"]],
+    "dice_fill_bytes": [["dice", "fill_bytes"]],
+    "udp_with_eih": [["udp", "with_eih"]],
+    "udp_aes_encrypt_in_place": [["udp", "aes_encrypt_in_place"]],
 }
 
 _st_method_sig = st.method_sig
@@ -126,6 +162,10 @@ _st_method_sig = st.method_sig
 def method_sig(rty, name):
     if rty == "BytesMut" and name == "split_off":
         return (["usize"], "BytesMut", "read", "Flow.split_off")
+    if rty == "ListArr" and name == "is_empty":
+        return ([], "bool", "pure", "List.isEmpty")
+    if rty == "ListArr" and name == "len":
+        return ([], "usize", "pure", "ListArr.len")
     if rty in OPAQUE:
         return None
     return _st_method_sig(rty, name)
@@ -145,13 +185,30 @@ def show_expr2(e):
         return "%s ^= %s" % (show_expr2(e.target), show_expr2(e.expr))
     if k == "structlit":
         return "%s { %s }" % (e.name, ", ".join(n for n, _ in e.fields))
+    if k == "advmut":
+        return "unsafe { %s.advance_mut(%s) }" % (show_expr2(e.base), show_expr2(e.arg))
     return _st_show_expr(e)
 
 
 for _m in (ta, tt, st):
     _m.show_expr = show_expr2
 show_expr = show_expr2
-ta.MUTATING = re.compile(ta.MUTATING.pattern + r"|split_off|copy_from_slice")
+_st_show_pat = st.show_pat
+
+
+def show_pat2(p):
+    if p.kind == "pbind" and getattr(p, "mut", False):
+        return "mut " + p.name
+    if p.kind == "ptuple":
+        return "(%s)" % ", ".join(show_pat2(x) for x in p.subs)
+    return _st_show_pat(p)
+
+
+for _m in (ta, tt, st):
+    _m.show_pat = show_pat2
+tt.show_pat_t = show_pat2
+show_pat = show_pat2
+ta.MUTATING = re.compile(ta.MUTATING.pattern + r"|split_off|copy_from_slice|reserve")
 
 # lean_type is called through the module globals of ta / tt / st
 _orig_lt = st.lean_type
@@ -307,6 +364,35 @@ class Parser(st.Parser):
             elif t.kind == "punct" and t.text == "{" and depth == 0:
                 break
             j += 1
+        # a parameter written as a tuple pattern `(a, b, c): T` becomes `arg__k: T` + `let (a, b, c) = arg__k;`
+        tuple_params = []
+        i = k
+        while self.toks[i].text != "(":
+            i += 1
+        depth = 0
+        while i < j:
+            tx = self.toks[i].text
+            if tx == "(":
+                depth += 1
+                if depth == 2 and self.toks[i - 1].text in ("(", ","):
+                    e = i
+                    names = []
+                    while self.toks[e].text != ")":
+                        e += 1
+                        if self.toks[e].kind == "ident":
+                            names.append(self.toks[e].text)
+                        elif self.toks[e].text not in (",", ")"):
+                            raise Unsupported("parameter pattern", self.toks[i].line)
+                    if self.toks[e + 1].text != ":":
+                        raise Unsupported("parameter pattern", self.toks[i].line)
+                    nm = "arg__%d" % len(tuple_params)
+                    tuple_params.append((nm, names, self.toks[i].line))
+                    self.toks[i:e + 1] = [pw.Tok("ident", nm, self.toks[i].line)]
+                    j -= (e - i)
+                    depth -= 1
+            elif tx == ")":
+                depth -= 1
+            i += 1
         nested = []
         while self.toks[j + 1].kind == "ident" and self.toks[j + 1].text == "fn":
             save = self.pos
@@ -324,6 +410,9 @@ class Parser(st.Parser):
         fn = st.Parser.parse_fn(self)
         self.generic = saved_generic
         fn.own_generic = gen
+        for nm, names, ln in reversed(tuple_params):
+            pat = Node("ptuple", ln, subs=[Node("pbind", ln, name=n) for n in names])
+            fn.body.stmts.insert(0, Node("lettuple", ln, pat=pat, expr=Node("var", ln, name=nm)))
         for inner in nested:
             inner.outer = fn.name
             self.local_fns.append(inner)
@@ -427,6 +516,22 @@ class Parser(st.Parser):
 
     def parse_primary(self, ns):
         t = self.tok
+        if self.at("unsafe"):
+            # the one trusted `unsafe` idiom, token by token:  unsafe { D . advance_mut ( E ) [;] }
+            k = self.pos
+            pat = [x.text for x in self.toks[k:k + 6]]
+            if not (pat[1] == "{" and self.toks[k + 2].kind == "ident" and pat[3] == "." and pat[4] == "advance_mut" and pat[5] == "("):
+                raise Unsupported("`unsafe` block outside the trusted idiom `unsafe { D.advance_mut(E) }`", t.line)
+            self.pos = k + 2
+            d = self.ident()
+            self.expect(".")
+            self.expect("advance_mut")
+            args = self.parse_args()
+            self.accept(";")
+            if not self.at("}") or len(args) != 1:
+                raise Unsupported("`unsafe` block outside the trusted idiom `unsafe { D.advance_mut(E) }`", t.line)
+            self.advance()
+            return Node("advmut", t.line, base=Node("var", d.line, name=d.text), arg=args[0])
         if self.at("|") and self.peek().text == "(":
             # `|(l, r)| *l ^= r`
             self.advance()
@@ -582,6 +687,8 @@ class Gen(st.Gen):
         self.defaults = set()    # structs with #[derive(Default)]
         self.ord_enums = set()   # enums with #[derive(PartialOrd, Ord)]
         self.aliases = {}
+        self.reserved = set()    # buffers on which `reserve(..)` was called earlier in the function
+        self.uses_spare = False
 
     # ------------------------------------------------------------------ types
     def resolve_type(self, t):
@@ -627,6 +734,10 @@ class Gen(st.Gen):
         k = e.kind
         if k == "index_range":
             return "SliceU8" if is_bytes(self.try_type(e.base)) else None
+        if k == "advmut":
+            return "unit"
+        if k == "index" and self.try_type(e.base) == "ListArr":
+            return ("array", self.generic)
         if k == "repeat":
             n = e.len
             if n.kind == "lit" and n.suffix in (None, "usize"):
@@ -656,10 +767,14 @@ class Gen(st.Gen):
             n = e.name
             if n in ("cmp", "then"):
                 return "Ordering"
+            if n == "wrapping_add":
+                return self.try_type(e.base)
             bt = self.try_type(e.base)
             if bt == "IoCursor" and n == "get_u64":
                 return "u64"
             if is_bytes(bt) and n == "copy_from_slice":
+                return "unit"
+            if bt == "BytesMut" and n == "reserve":
                 return "unit"
             if n == "for_each":
                 return "unit"
@@ -674,6 +789,23 @@ class Gen(st.Gen):
 
     def ex(self, e, expected, pre):
         k = e.kind
+        if k == "advmut":
+            v, fields, ty = self.place_of(e.base, "`advance_mut`")
+            if fields or ty != "BytesMut":
+                raise Unsupported("`advance_mut` on `%s`" % show_expr(e.base), e.line)
+            if v.name not in self.reserved:
+                raise Unsupported("`unsafe { %s.advance_mut(..) }` without an earlier `%s.reserve(..)` in the function (the trusted idiom "
+                                  "needs the spare capacity)" % (v.name, v.name), e.line)
+            n = self.usize_term(e.arg, pre)
+            self.uses_spare = True
+            self.write_place(v, [], "(Cursor.advance_mut %s %s (%s.spare_bytes %s))" % (self.vname(v), n, self.X, n), pre)
+            return "unit", "()"
+        if k == "index" and self.try_type(e.base) == "ListArr":
+            _, b = self.ex(e.base, None, pre)
+            i = self.usize_term(e.idx, pre)
+            x = self.fresh()
+            pre.append("Flow.bind (Flow.listAt %s %s) fun %s =>" % (b, i, x))
+            return ("array", self.generic), x
         if k == "index_range":
             bty, b = self.ex(e.base, None, pre)
             if not is_bytes(bty):
@@ -788,6 +920,13 @@ class Gen(st.Gen):
                 raise Unsupported("`.zip(..)` with a `%s`" % type_str(bty), e.line)
             self.write_place(v, fields, "(Bytes.xor_zip %s %s)" % (self.place_term(v, fields), bt), pre)
             return "unit", "()"
+        if n == "reserve" and len(e.args) == 1 and self.try_type(e.base) == "BytesMut":
+            v, fields, ty = self.place_of(e.base, "`.reserve(..)`")
+            if fields:
+                raise Unsupported("`.reserve(..)` on a field", e.line)
+            self.usize_term(e.args[0], pre)      # evaluated: its `+` can overflow
+            self.reserved.add(v.name)
+            return "unit", "()"
         if n == "copy_from_slice" and len(e.args) == 1:
             v, fields, ty = self.place_of(e.base, "`.copy_from_slice(..)`")
             if not is_bytes(ty):
@@ -809,6 +948,14 @@ class Gen(st.Gen):
             if lt in self.ord_enums:
                 return "Ordering", "(compare (%s.as_u8 %s) (%s.as_u8 %s))" % (lt, l, lt, r)
             raise Unsupported("`.cmp(..)` on a `%s` (no derived `Ord` known)" % type_str(lt), e.line)
+        if n == "wrapping_add" and len(e.args) == 1:
+            lt, l = self.ex(e.base, None, pre)
+            if lt not in ARITH_INTS:
+                raise Unsupported("`.wrapping_add(..)` on a `%s`" % type_str(lt), e.line)
+            rt, r = self.ex(e.args[0], lt, pre)
+            if rt != lt:
+                raise Unsupported("`.wrapping_add(..)` of a `%s` and a `%s` (rustc would reject)" % (type_str(lt), type_str(rt)), e.line)
+            return lt, "(%s + %s)" % (l, r)
         if n == "then" and len(e.args) == 1:
             lt, l = self.ex(e.base, None, pre)
             rt, r = self.ex(e.args[0], None, pre)
@@ -860,6 +1007,12 @@ class Gen(st.Gen):
                 b = self.strip(xz[0])
                 if b.kind == "var":
                     extra.append(b.name)
+            if n.kind == "advmut":
+                extra.append(n.base.name)
+            if n.kind == "assign":
+                rs = self.is_reslice(n)
+                if rs is not None:
+                    extra.append(rs[0].skip)
             for key, val in n.__dict__.items():
                 if key not in ("kind", "line", "ty") and isinstance(val, (Node, list)):
                     walk(val)
@@ -890,6 +1043,31 @@ class Gen(st.Gen):
             if done:
                 raise Unsupported("statement after `return`/`bail!`", s.line)
             k = s.kind
+            if k == "exprstmt" and s.expr.kind == "advmut":
+                self.emit(ind, "-- L%d: %s;   (TRUSTED IDIOM: the length grows by that many bytes of the reserved spare capacity, content unspecified)"
+                          % (s.line, show_expr(s.expr)))
+                pre = []
+                self.ex(s.expr, "unit", pre)
+                self.emit_pre(ind, pre)
+                continue
+            if k == "let" and s.ty is None and s.expr.kind == "ref" and s.expr.mut and self.strip(s.expr).kind == "index_range" \
+                    and self.strip(s.expr).lo is None and self.strip(s.expr).hi is not None and self.strip(self.strip(s.expr).base).kind == "var":
+                r = self.strip(s.expr)
+                self.emit(ind, "-- L%d: let %s = %s;   (a view of the first bytes of the buffer: it is rebuilt after every change)" % (
+                    s.line, s.name, show_expr(s.expr)))
+                v, fields, ty = self.place_of(r.base, "`&mut ..[..n]`")
+                if fields or not is_bytes(ty):
+                    raise Unsupported("`&mut %s`" % show_expr(r), s.line)
+                pre = []
+                n = self.usize_term(r.hi, pre)
+                self.emit_pre(ind, pre)
+                rest = s.name + "__rest"
+                self.emit(ind, "Flow.bind (Flow.split_at %s %s) fun (%s, %s) =>" % (self.vname(v), n, lean_name(s.name), lean_name(rest)))
+                for nm in (s.name, rest):
+                    self.declare(nm, "SliceU8", True, s.line, alias=View(v.name, [s.name, rest]))
+                continue
+            if k == "let" and s.ty is None and s.expr.kind == "ref" and s.expr.mut:
+                s.mut = True
             if k == "let" and s.expr.kind == "var" and s.expr.name == "None" and s.ty is None:
                 self.emit(ind, "-- L%d: let %s%s = None;   (the type is that of the first assignment)" % (s.line, "mut " if s.mut else "", s.name))
                 self.declare(s.name, ("option", None), s.mut, s.line)
@@ -929,8 +1107,19 @@ class Gen(st.Gen):
                 self.emit_pre(ind, pre)
                 a, b = s.pat.subs[0].name, s.pat.subs[1].name
                 self.emit(ind, "Flow.bind (Flow.split_at %s %s) fun (%s, %s) =>" % (self.vname(v), n, lean_name(a), lean_name(b)))
-                for nm in (a, b):
-                    self.declare(nm, "SliceU8", True, s.line, alias=View(v.name, [a, b]))
+                parts = []
+                for sp in s.pat.subs:
+                    if getattr(sp, "mut", False):
+                        # `mut`: the reference can be re-sliced (`x = &mut x[n..]`); what it leaves behind stays part of the buffer
+                        parts.append(sp.name + "__skip")
+                    parts.append(sp.name)
+                for nm in parts:
+                    self.declare(nm, "SliceU8", True, s.line, alias=View(v.name, parts))
+                    if nm.endswith("__skip"):
+                        self.emit(ind, "let %s : List UInt8 := []" % lean_name(nm))
+                for sp in s.pat.subs:
+                    if getattr(sp, "mut", False):
+                        self.lookup(sp.name, s.line).skip = sp.name + "__skip"
                 continue
             if k == "lettuple":
                 self.emit(ind, "-- L%d: let %s = %s;" % (s.line, show_pat(s.pat), show_expr(s.expr)))
@@ -955,7 +1144,42 @@ class Gen(st.Gen):
     def infer_from_use(self, name, following):
         return st.Gen.infer_from_use(self, name, following or self.following)
 
+    def gen_body(self, fn, qualifier, self_type, sig, in_main, origin, generic):
+        self.reserved = set()
+        return st.Gen.gen_body(self, fn, qualifier, self_type, sig, in_main, origin, generic)
+
+    def is_reslice(self, s):
+        """`x = &mut x[n..];` on a `mut` view -> (variable, n)"""
+        tgt = self.strip(s.target) if s.target.kind == "paren" else s.target
+        if s.kind != "assign" or tgt.kind != "var" or s.op is not None or s.expr.kind != "ref" or not s.expr.mut:
+            return None
+        r = self.strip(s.expr)
+        if r.kind != "index_range" or r.hi is not None or r.lo is None:
+            return None
+        b = self.strip(r.base)
+        if b.kind != "var" or b.name != tgt.name:
+            return None
+        try:
+            v = self.lookup(tgt.name, s.line)
+        except Unsupported:
+            return None
+        if not getattr(v, "skip", None):
+            return None
+        return v, r.lo
+
     def stmt_assign(self, s, ind):
+        rs = self.is_reslice(s)
+        if rs is not None:
+            v, lo = rs
+            self.emit(ind, "-- L%d: %s = %s;   (re-slicing: the bytes in front stay part of the buffer)" % (s.line, v.name, show_expr(s.expr)))
+            pre = []
+            n = self.usize_term(lo, pre)
+            a, b = self.fresh(), self.fresh()
+            pre.append("Flow.bind (Flow.split_at %s %s) fun (%s, %s) =>" % (self.vname(v), n, a, b))
+            pre.append("let %s : List UInt8 := %s ++ %s" % (lean_name(v.skip), lean_name(v.skip), a))
+            pre.append("let %s : List UInt8 := %s" % (self.vname(v), b))
+            self.emit_pre(ind, pre)
+            return
         tgt = self.strip(s.target) if s.target.kind == "paren" else s.target
         if tgt.kind == "var" and s.op is None:
             v = self.lookup(tgt.name, tgt.line)
@@ -993,6 +1217,17 @@ def Bytes.xor_zip : List UInt8 → List UInt8 → List UInt8
   | x :: a, y :: b => (x ^^^ y) :: Bytes.xor_zip a b
 /-- `u64::from_be_bytes` -/
 def U64.from_be_bytes (b : List UInt8) : UInt64 := UInt64.ofNat (beNat b)
+/-- TRUSTED IDIOM `unsafe { b.advance_mut(n) }` after `b.reserve(..)`: the length grows by `n`; the new bytes are whatever the
+spare capacity holds (`junk`, an assumed external; cut / zero-filled to exactly `n` bytes) -/
+def Cursor.advance_mut (b : List UInt8) (n : Usize) (junk : List UInt8) : List UInt8 :=
+  b ++ (junk ++ List.replicate n.toNat 0).take n.toNat
+/-- `&keys[i]` on a slice of byte arrays: panics when out of range -/
+def Flow.listAt {ρ : Type} (l : List (List UInt8)) (i : Usize) : Flow (List UInt8) ρ :=
+  match l[i.toNat]? with
+  | some x => .next x
+  | none => .panic
+/-- `keys.len()` -/
+def ListArr.len (l : List (List UInt8)) : Usize := UInt64.ofNat l.length
 
 /-- the types behind the assumed externals -/
 structure ExtTypes : Type 1 where
@@ -1002,6 +1237,8 @@ structure ExtTypes : Type 1 where
   CipherMethod : Type
   /-- `codec::shadowsocks::ChunkDecoder` (the legacy packet opener: cipher + nonce generator) -/
   ChunkDecoder : Type
+  /-- `codec::shadowsocks::ChunkEncoder` (the legacy packet sealer) -/
+  ChunkEncoder : Type
 '''
 
 
@@ -1019,6 +1256,7 @@ SIDES = [
     ("legacy", ("codec", "shadowsocks", "aead.rs"), "ss_aead.rs"),
     ("address", ("protocol", "address.rs"), "address_type.rs"),
     ("codec", ("protocol", "socks5", "address.rs"), "socks5_address.rs"),
+    ("util", ("util.rs",), "util.rs"),
 ]
 st.SIDES = SIDES
 
@@ -1104,12 +1342,12 @@ def translate(path, out_path):
         raise Unsupported("socks5/address.rs uses `String::from_utf8`: the generated functions take a further parameter", 1)
     got = []
     for fn in sp.fns:
-        if fn.name in ("encode", "decode"):
+        if fn.name in ("encode", "decode", "length"):
             fn.recv = None
             g.fns[("address", fn.name)] = g.fn_sig(fn, "address", "Octo.AddrGen.%s" % lean_name(fn.name))
             got.append(fn.name)
-    if sorted(got) != ["decode", "encode"]:
-        raise Unsupported("`encode` / `decode` not found in socks5/address.rs", 1)
+    if sorted(got) != ["decode", "encode", "length"]:
+        raise Unsupported("`encode` / `decode` / `length` not found in socks5/address.rs", 1)
     sides["codec"] = (spath, sdig, "signatures of %s (bodies: Octo.AddrGen)" % ", ".join("`%s`" % n for n in got))
 
     def side_enum(role, name, origin, methods):
@@ -1150,7 +1388,7 @@ def translate(path, out_path):
     pre_out.append("/-! (parsed from manager/shadowsocks.rs) -/")
     g.register_struct(sts[0])
     sides["user"] = (spath, sdig, "`struct ServerUser`; signatures of %s" % ", ".join("`%s`" % c for c in checked.get("user", [])))
-    for role in ("udp2022", "legacy", "chunk"):
+    for role in ("udp2022", "legacy", "chunk", "util"):
         spath, sdig, sp = loaded[role]
         sides[role] = (spath, sdig, "signatures of %s" % ", ".join("`%s`" % c for c in checked.get(role, [])))
 
@@ -1292,6 +1530,9 @@ def translate(path, out_path):
         ext_out.append("  /-- %s%s -/" % (x.doc, ("; the result is (%s, returned value)" % ", ".join(
             (["final `*self`"] if x.recv and x.recv[1] == "mut" else []) + ["final `*arg%d`" % (i + 1) for i, (_, m) in enumerate(x.params) if m])) if outs else ""))
         ext_out.append("  %s : %sRes (%s)" % (x.field, "".join(t + " → " for t in tys), res))
+    if g.uses_spare:
+        ext_out.append("  /-- what the reserved spare capacity holds when `advance_mut(n)` makes `n` bytes of it part of the buffer (unspecified) -/")
+        ext_out.append("  spare_bytes : Usize → List UInt8")
     if g.uses_trace:
         ext_out.append("  /-- whether the `log` level of `trace!` is enabled: its arguments are evaluated (and can panic) only then -/")
         ext_out.append("  trace_enabled : Bool")
@@ -1340,6 +1581,12 @@ def header(path, digest, p, sides, g):
     lines.append("   * `let mut x = None;` takes its type from the first assignment; `Self { a, b }` = a structure value;")
     lines.append("     `T::default()` for `#[derive(Default)]` = zeros / `None`; a nested `fn` is a definition of its own;")
     lines.append("   * `a.cmp(&b)` = `compare` (integers; an enum with derived `Ord`: its declaration order), `o.then(p)` = `Ordering.then`;")
+    lines.append("   * TRUSTED IDIOM (`unsafe`, recognised token by token): `unsafe { D.advance_mut(E) }` after a `D.reserve(..)` earlier in the")
+    lines.append("     function = `D` grows by `E` bytes of unspecified content (`X.spare_bytes`).  Trusted: the reserved capacity suffices")
+    lines.append("     (`BytesMut::advance_mut` panics otherwise).  Any other `unsafe` block is refused.  `D.reserve(E)` = `E` is evaluated;")
+    lines.append("   * `let v = &mut D[..n]` = a view of the first `n` bytes (`D` = `v ++ rest`, rebuilt after every change of `v`);")
+    lines.append("     `let (a, mut b) = D.split_at_mut(n)` + `b = &mut b[m..]` (re-slicing): the `m` bytes stay part of `D` (`b__skip`);")
+    lines.append("   * a parameter written as a tuple pattern is bound by a `let`; `&keys[i]` on `&[[u8; N]]` panics out of range;")
     lines.append("   * format arguments of `bail!` are evaluated (overflow checks) and dropped; arguments of `trace!`.. are evaluated only")
     lines.append("     under `X.trace_enabled` and must not change anything.")
     lines.append("   ASSUMED EXTERNALS (fields of `Ext`, parameter `X` of every generated function; `ExtTypes`: %s):" % ", ".join(OPAQUE))
